@@ -201,9 +201,18 @@ def _build(ctx, sk, env=None):
     for i in sk.get("goal", [0]):
         prob.add_goal(cond(i, em.ObjectExp(o1)))
     # initial state: Booleans fork, numerics symbolic; u stays undefined unless asked
-    prob.set_initial_value(em.FluentExp(b), em.Bool(bool(ctx.choice("b0", 2))))
+    # Boolean initial values fork only for fluents the skeleton mentions (the others are irrelevant to every verdict)
+    conds = set(sk.get("pre", [])) | set(sk.get("goal", [0])) | set(sk.get("pre2", []))
+    effs = set(sk["effs"]) | set(sk.get("second_action") or [])
+    if effs & {1, 5, 9, 14, 16}:
+        conds |= {sk.get("effcond", 2)}
+    if (set(sk.get("second_action") or [])) & {1, 5, 9, 14, 16}:
+        conds |= {sk.get("effcond2", 0)}
+    uses_b = bool(conds & {0, 1, 6, 8}) or bool(effs & {0, 1, 12}) or 1 in sk.get("inv", []) or sk.get("fork_all")
+    uses_p = bool(conds & {2, 6, 7, 8, 11, 12}) or bool(effs & {6, 10, 13, 15}) or 1 in sk.get("inv", []) or sk.get("fork_all")
+    prob.set_initial_value(em.FluentExp(b), em.Bool(bool(ctx.choice("b0", 2)) if uses_b else False))
     for o in objs:
-        prob.set_initial_value(em.FluentExp(p, [em.ObjectExp(o)]), em.Bool(bool(ctx.choice(f"p0_{o.name}", 2))))
+        prob.set_initial_value(em.FluentExp(p, [em.ObjectExp(o)]), em.Bool(bool(ctx.choice(f"p0_{o.name}", 2)) if uses_p else False))
     wi = sk.get("w_init", "id")
     for o in objs:
         tgt = o if wi == "id" else objs[ctx.choice(f"w0_{o.name}", len(objs))]
